@@ -2,7 +2,7 @@ SPECIFICATION SSpec
 CONSTANTS
   Transport = "tls"
   ResidueAfterFailure = FALSE
-  ShortCookieRead = TRUE
+  ShortCookieRead = FALSE
   DialResetsData = TRUE
   Alpns <- AlpnsTls
   Alphabet <- AlphaAll
@@ -11,4 +11,5 @@ CONSTANTS
   MaxDials = 3
   MaxCalls = 6
   MaxStore = 2
+  Tails = TRUE
 INVARIANTS Emit RunAgrees
